@@ -205,6 +205,22 @@ def h_types(ctx):
         r = call(f, {"f": 1.5, "g": -0.0, "h": 1e22, "i": 3})
         ctx.check("floats-and-ints-rendered-by-str:" + op, r[0] == "ok" and [(k, v) for k, v in r[1].query.items()][-4:] ==
                   [("f", "1.5"), ("g", "-0.0"), ("h", "1e+22"), ("i", "3")], r[1])
+        class F(float):
+            pass
+
+        class S(str):
+            pass
+        for badf in (F("nan"), F("inf"), F("-inf")):
+            r = call(f, {"k": badf})
+            ctx.check("float-subclass-nan-inf-rejected:" + op, r[0] == "exc" and r[1] in ("TypeError", "ValueError"), (op, repr(badf), r[1]))
+        r = call(f, {"s": S("a&b=c+d%"), "t": F(2.5)})
+        ctx.check("str-and-float-subclasses-quoted-like-their-base:" + op, r[0] == "ok" and [(k, v) for k, v in r[1].query.items()][-2:] ==
+                  [("s", "a&b=c+d%"), ("t", "2.5")], r[1])
+        import multidict
+        md = multidict.MultiDict([("m", "1"), ("m", "2"), ("n", "3")])
+        r = call(f, md)
+        got = [(k, v) for k, v in r[1].query.items()] if r[0] == "ok" else None
+        ctx.check("multidict-argument-keeps-repeated-keys:" + op, got is not None and got[-3:] == [("m", "1"), ("m", "2"), ("n", "3")], got)
         r = call(lambda: f({"k": "v"}, x="y"))
         ctx.check("kwargs-and-positional-rejected:" + op, r[0] == "exc" and r[1] == "ValueError", r[1])
         r = call(lambda: f())
